@@ -14,9 +14,12 @@ import (
 	"hpfscheck/internal/ssax"
 )
 
-func init() { register(&Spec{ID: "C01", Targets: []load.Target{load.Linux, load.Windows, load.Wasm}, Run: runC01}) }
+func init() {
+	register(&Spec{ID: "C01", Targets: []load.Target{load.Linux, load.Windows, load.Wasm}, Run: runC01})
+}
 
 func runC01(c *core.Ctx) {
+	runFixtures(c, "valid")
 	c.Explain("Differential equivalence with package os over histories is not decidable statically. Decided, exhaustively over a finite space: (R01.1) the flag decision table of the key-value FS's OpenFile — for all 48 flag values (3 access modes x O_APPEND/O_CREATE/O_EXCL/O_TRUNC, constants of the loaded target) x {target missing with parent a directory / parent missing / parent a regular file; target a regular file; target a directory} = 240 cells the single feasible path through the function is followed by evaluating its flag tests as constants and its look-up tests from the situation, and the outcome (handle kind by control dependence of the wrapper constructed, create reached, truncate reached, or the sentinel of the returned error) must equal the reference table of os.OpenFile; a test the evaluator cannot classify makes the cell undecided (= failure); (R01.2) permission masking: every value that reaches the mode of a newly built record from a perm/mode parameter of Mkdir, MkdirAll, OpenFile crosses '& const' with const within ModePerm, Chmod's stored mode crosses '& const' within ModePerm|Setuid|Setgid|Sticky, and directory records are or-ed with ModeDir — invisible to the suite, which compares modes under a zero mask. Existence/kind preconditions of the other mutations are C03's. NOT claimed: results, data and trees equal to os over histories; Rename/Remove/RemoveAll semantics beyond C03; modification times.")
 	c.Assume("reference table of os.OpenFile semantics frozen in the checker (documented in DESIGN.md §3 C01)")
 	c.RuleDoc("R01.1", "OpenFile flag decision table, exhaustive over 240 cells")
